@@ -1,4 +1,4 @@
-\* c32
+\* 3 candidates, mandatory sessions 1 and 3, ECUReset optional; also checks fixpoint = Warshall closure
 SPECIFICATION Spec
 CONSTANTS
   Cand <- Cand3
